@@ -134,6 +134,10 @@ class FDAI:
         if pl[1] == []:
             tgt = body.ref_target(pl[0])
             if tgt is not None:
+                if tgt[0][0] == 'd' and tgt[1] == ():
+                    cv = self.const_ref_val(body, tgt[0][1])
+                    if cv is not None:
+                        return cv, None
                 return st.get(tgt), tgt
             cv = self.const_ref_val(body, pl[0])
             if cv is not None:
